@@ -131,9 +131,34 @@ def run(chk, prop="C02"):
         b = {short(callee(c)) for c in gq.calls() if (callee(c) or "").startswith("TasGrid::GridSequence::")}
         chk.saw(gs)
         chk.ob("C02-D3.route", gs.name, "integrate and getQuadratureWeights share the basis-integral routine", bool(a & b & {"cacheBasisIntegrals"}), gs.where, "integrate: %s ; weights: %s" % (sorted(a), sorted(b)))
+        # ---- shared clauses: the scale of the domain transform (C10) and the basis integrals of the local rules (C04)
+        from tsg.report import Check
+        from rules import c10, c04
+        chk.rule("C02-D2.scale", "under a domain transform the weights are multiplied by the Jacobian of the forward map to the power fixed by the weight function of the rule family; "
+                                 "getQuadratureScale dispatches every rule into the family the maps use (obligations of C10-D1 / C10-D2)")
+        sub = Check("C10", chk.tier, chk.seed)
+        c10.run(sub)
+        chk.absorb(sub)
+        nsc = 0
+        for o in sub.obls:
+            if (o["rule"] == "C10-D2.algebra" and ("quadrature scale" in o["construct"] or "effective" in o["construct"])) or \
+                    (o["rule"] == "C10-D1.partition" and "getQuadratureScale" in (o["function"] + o["construct"])):
+                nsc += 1
+                chk.ob("C02-D2.scale", o["function"], o["construct"], o["ok"], o["where"], o["detail"], o["expected"])
+        chk.floor("C02-D2.scale", nsc, 5, "quadrature-scale obligations shared with C10")
+        chk.rule("C02-D4.area", "local polynomial quadrature weights are built from getArea: the tabulated basis integrals equal the exact integrals of the closed-form basis (obligations of C04-D4)")
+        sub4 = Check("C04", chk.tier, chk.seed)
+        c04.run(sub4)
+        chk.absorb(sub4)
+        na = 0
+        for o in sub4.obls:
+            if o["rule"] == "C04-D4.area":
+                na += 1
+                chk.ob("C02-D4.area", o["function"], o["construct"], o["ok"], o["where"], o["detail"], o["expected"])
+        chk.floor("C02-D4.area", na, 4, "basis-integral obligations shared with C04")
         chk.note("C02", "SparseGrids/tsgCoreOneDimensional.cpp", "exactness of the computed nodes/weights themselves (eigen-solves, closed forms, tensor weights) is numerical and not decided")
         return ("Static rule discharge: the three exactness tables are partially evaluated (no loops) for every global rule and levels 0..%d and the declared quadrature exactness is compared with "
                 "theorems that bound the degree of exactness by the number of nodes (Gauss 2n-1, Gauss-Patterson (3n+1)/2, interpolatory n-1 plus one by symmetry for odd n); "
-                "monotonicity, case coverage and the routing of integrate(). Exactness of the computed nodes and weights for all configurations is numerical and not decided." % LMAX)
+                "monotonicity, case coverage, the routing of integrate(), the quadrature scale of the domain transform and the basis integrals of the local rules. Exactness of the computed nodes and weights for all configurations is numerical and not decided." % LMAX)
     return ("Static rule discharge: declared interpolation exactness never exceeds n-1 for n nodes (the space listed by getGlobalPolynomialSpace(true) is built from this table), "
             "monotonicity and case coverage. Exact reproduction at arbitrary x by the Lagrange/Newton/DFT/DAG machinery is numerical and not decided.")
